@@ -769,6 +769,7 @@ func failsAs(part string, name string, p *gm.Program, hist []Step, batch, oneRun
 // otherwise, if an earlier return() of the history left the generator suspended (inside a finally block),
 // the trigger is "after-return-suspended-in-finally"; if a throw() arrived while the generator was suspended
 // in the finally block of a try statement that has a catch clause, it is "throw-into-finally-of-try-with-catch";
+// if a return() closed an iterator whose return() threw, it is "return-closes-throwing-iterator";
 // otherwise the case is minimised (shrink.go) and the minimal body and history are the trigger. signature = part | trigger | diverging call | class.
 func signatureOf(vc *VCase, class string) (sig string, minProg *gm.Program, minHist []Step) {
 	hist := vc.History
@@ -804,6 +805,9 @@ func signatureOf(vc *VCase, class string) (sig string, minProg *gm.Program, minH
 	}
 	if trigger == "" && vc.Part == "gen" && returnSuspendedBefore(hist, vc.At) {
 		trigger = "after-return-suspended-in-finally"
+	}
+	if trigger == "" && vc.Part == "gen" && returnClosedThrowingIterator(hist, vc.At) {
+		trigger = "return-closes-throwing-iterator"
 	}
 	if trigger == "" && vc.Part == "gen" && thrownIntoFinallyWithCatch(hist, vc.At) {
 		trigger = "throw-into-finally-of-try-with-catch"
@@ -877,6 +881,22 @@ func returnSuspendedBefore(hist []Step, at int) bool {
 	return false
 }
 
+// returnClosedThrowingIterator: a return() of the history closed an instrumented iterator (for-of, destructuring)
+// whose return() threw or returned a non-object, so that - per the model - the return() call itself throws.
+func returnClosedThrowingIterator(hist []Step, at int) bool {
+	for i := 0; i <= at && i < len(hist); i++ {
+		if hist[i].Op != gm.OpReturn || !strings.HasPrefix(hist[i].Res, "!") {
+			continue
+		}
+		for _, l := range hist[i].Log {
+			if strings.HasPrefix(l, "it.return(") {
+				return true
+			}
+		}
+	}
+	return false
+}
+
 // thrownIntoFinallyWithCatch: a throw() of the history arrived while the generator was suspended inside the
 // finally block of a try statement that also has a catch clause.
 func thrownIntoFinallyWithCatch(hist []Step, at int) bool {
@@ -906,7 +926,7 @@ func asyncWhat(h []Step, at int, batch bool) string {
 func (w *worker) report(class string, vc *VCase) {
 	key := vc.Part + "|" + vc.Name + "|" + class
 	if vc.At >= 0 && vc.Part == "gen" {
-		key += fmt.Sprintf("|%d|%v|%v", vc.History[vc.At].Op, returnSuspendedBefore(vc.History, vc.At), thrownIntoFinallyWithCatch(vc.History, vc.At))
+		key += fmt.Sprintf("|%d|%v|%v|%v", vc.History[vc.At].Op, returnSuspendedBefore(vc.History, vc.At), thrownIntoFinallyWithCatch(vc.History, vc.At), returnClosedThrowingIterator(vc.History, vc.At))
 	}
 	if sig, ok := w.sigs[key]; ok {
 		w.r.Violation(sig, describe(vc), vc)
